@@ -101,14 +101,36 @@ fn parse_fasta_file(p: &str) -> Option<(Vec<String>, Vec<Vec<u8>>)> {
     std::fs::read(p).ok().map(|b| crate::real::parse_fasta(&b))
 }
 
+/// Sample names in an order that is neither alphabetical nor numeric, so that an output which lists samples in sorted
+/// order (or any order other than the input's) cannot pass for correct
+pub fn sample_name(i: usize) -> String {
+    const P: [&str; 12] = ["zeta", "mu", "alpha", "rho", "beta", "xi", "kappa", "delta", "pi", "eta", "omega", "chi"];
+    format!("{}{}", P[i % 12], i)
+}
+
+pub fn sample_names(n: usize) -> Vec<String> {
+    (0..n).map(sample_name).collect()
+}
+
+/// Columns of a VCF body reordered to input order by the names in its #CHROM line; Err if the names differ
+pub fn gt_order(vcf: &str, names: &[String]) -> Result<Vec<usize>, String> {
+    let header = vcf.lines().find(|l| l.starts_with("#CHROM")).ok_or("no #CHROM line in the VCF")?;
+    let cols: Vec<&str> = header.split('\t').skip(9).collect();
+    names
+        .iter()
+        .map(|n| cols.iter().position(|c| c == n).ok_or(format!("VCF header lists samples {cols:?}, sample {n} is missing")))
+        .collect::<Result<Vec<usize>, String>>()
+        .and_then(|o| if cols.len() == names.len() { Ok(o) } else { Err(format!("VCF header lists {} samples for {} in the file", cols.len(), names.len())) })
+}
+
 /// Write samples, `ska build`, `ska lo` in `dir`. Extra args e.g. ["-m","0.2"].
 pub fn run_lo(dir: &str, k: usize, samples: &[Vec<Vec<u8>>], reference: Option<&[u8]>, extra: &[&str], threads: usize, hash_seed: Option<u64>) -> Result<LoOut, String> {
     let _ = std::fs::remove_dir_all(dir);
     std::fs::create_dir_all(dir).map_err(|e| format!("{e}"))?;
     let mut args: Vec<String> = vec!["build".into(), "-k".into(), k.to_string(), "-o".into(), "in".into()];
     for (i, s) in samples.iter().enumerate() {
-        std::fs::write(format!("{dir}/smp{i}.fa"), crate::scratch::fasta(s)).unwrap();
-        args.push(format!("smp{i}.fa"));
+        std::fs::write(format!("{dir}/{}.fa", sample_name(i)), crate::scratch::fasta(s)).unwrap();
+        args.push(format!("{}.fa", sample_name(i)));
     }
     let av: Vec<&str> = args.iter().map(|s| s.as_str()).collect();
     let b = cli::run(&av, dir, hash_seed);
@@ -168,13 +190,30 @@ pub fn lo_on_file(dir: &str, reference: Option<&[u8]>, extra: &[&str], threads: 
     let o = cli::run(&a, dir, hash_seed);
     let tail: String = String::from_utf8_lossy(&o.stderr).lines().filter(|l| l.contains("panicked") || l.contains("rror")).take(2).collect::<Vec<_>>().join(" / ");
     let (snp_names, snp_seqs) = parse_fasta_file(&format!("{dir}/out_snps.fas")).unwrap_or_default();
+    // sequences are attributed to samples by their names: put them into input order when the names are exactly the
+    // input's (any other name list is left as it is and fails the callers' checks on names)
+    let nsamples = std::fs::read_dir(dir).map(|d| d.filter_map(|e| e.ok()).filter(|e| e.file_name().to_string_lossy().ends_with(".fa") && e.file_name() != "ref.fa").count()).unwrap_or(0);
+    let expected = sample_names(nsamples);
+    let reorder = |names: &Vec<String>, seqs: Vec<Vec<u8>>| -> (Vec<String>, Vec<Vec<u8>>) {
+        let mut sorted = names.clone();
+        sorted.sort();
+        let mut exp_sorted = expected.clone();
+        exp_sorted.sort();
+        if sorted == exp_sorted && seqs.len() == names.len() {
+            let seqs2 = expected.iter().map(|n| seqs[names.iter().position(|x| x == n).unwrap()].clone()).collect();
+            (expected.clone(), seqs2)
+        } else {
+            (names.clone(), seqs)
+        }
+    };
+    let (snp_names, snp_seqs) = reorder(&snp_names, snp_seqs);
     Ok(LoOut {
         code: o.code,
         stderr_tail: tail,
         snp_names,
         snp_seqs,
         snps_vcf: std::fs::read_to_string(format!("{dir}/out_snps.vcf")).ok(),
-        pseudo: parse_fasta_file(&format!("{dir}/out_pseudo_genomes.fas")),
+        pseudo: parse_fasta_file(&format!("{dir}/out_pseudo_genomes.fas")).map(|(n, q)| reorder(&n, q)),
         indels_vcf: std::fs::read_to_string(format!("{dir}/out_indels.vcf")).unwrap_or_default(),
     })
 }
@@ -194,6 +233,24 @@ pub struct IndelRecord {
     pub before: String,
     pub after: String,
     pub gts: Vec<String>,
+}
+
+/// records with genotypes in the order of `names` (looked up in the header); positional when `names` is None
+pub fn parse_indels_named(vcf: &str, names: &[String]) -> Result<Vec<IndelRecord>, String> {
+    let recs = parse_indels(vcf);
+    if recs.is_empty() {
+        return Ok(recs);
+    }
+    let order = gt_order(vcf, names).map_err(|e| format!("indel VCF: {e}"))?;
+    recs.into_iter()
+        .map(|mut r| {
+            if r.gts.len() != names.len() {
+                return Err(format!("{} genotype columns for {} samples", r.gts.len(), names.len()));
+            }
+            r.gts = order.iter().map(|c| r.gts[*c].clone()).collect();
+            Ok(r)
+        })
+        .collect()
 }
 
 pub fn parse_indels(vcf: &str) -> Vec<IndelRecord> {
